@@ -30,6 +30,7 @@
 #include "llvm/Support/MemoryBuffer.h"
 #include "llvm/Support/VirtualFileSystem.h"
 #include "llvm/Support/raw_ostream.h"
+#include <algorithm>
 #include <map>
 #include <set>
 #include <string>
@@ -120,14 +121,23 @@ public:
       }
     }
   }
-  // Full stack: every macro whose expansion contains the location (body or argument)
-  void macrosFull(SourceLocation L, std::vector<std::string> &out) {
+  // Full stack: every macro whose expansion contains the location, through macro bodies AND
+  // macro arguments (a token written inside ASSERT (...)'s argument reaches ASSERT_ALWAYS's body
+  // only through a macro-argument expansion entry).  Innermost first.
+  void macrosFull(SourceLocation L, std::vector<std::string> &out, int depth = 0) {
     int guard = 0;
-    while (L.isMacroID() && guard++ < 32) {
-      llvm::StringRef n = Lexer::getImmediateMacroName(L, SM, LO);
-      if (!n.empty() && (out.empty() || out.back() != n))
-        out.push_back(n.str());
-      L = SM.getImmediateMacroCallerLoc(L);
+    while (L.isMacroID() && guard++ < 40 && depth < 12) {
+      if (SM.isMacroArgExpansion(L)) {
+        // where the token was spelled (possibly inside another macro's expansion) ...
+        macrosFull(SM.getImmediateSpellingLoc(L), out, depth + 1);
+        // ... and the macro body into which the argument was substituted
+        L = SM.getImmediateExpansionRange(L).getBegin();
+      } else {
+        llvm::StringRef n = Lexer::getImmediateMacroName(L, SM, LO);
+        if (!n.empty() && std::find(out.begin(), out.end(), n.str()) == out.end())
+          out.push_back(n.str());
+        L = SM.getImmediateExpansionRange(L).getBegin();
+      }
     }
   }
   void emitMacros(SourceLocation L) {
